@@ -3,9 +3,13 @@ from vlib.framework import PUnit, LUnit, BUnit
 from bounded import b_coords as B
 from contracts import backmap as BM
 from contracts import coord_reader as CR
+from contracts import random_walk as W
 
 P_UNITS = [PUnit("coordinates-consumed-exactly", CR.CONTRACTS, CR.REG),
-           PUnit("backmap-only-flagged-residues", BM.CONTRACTS, BM.REG)]
+           PUnit("backmap-only-flagged-residues", BM.CONTRACTS, BM.REG),
+           # 'a failed placement attempt never alters or discards supplied coordinates' / supplied residues are never re-placed:
+           PUnit("walk-leaves-supplied-residues-alone", [W.RANDOM_WALK], W.REG),
+           PUnit("abandoned-attempt-restores-the-engine", [W.HANDLE_WALK], W.REGH)]
 
 
 def build(tier, seed):
